@@ -63,7 +63,7 @@ OUTLIER_FRAC = 0.005
 OUTLIER_ABS = 10
 # level resolutions are not a whole multiple of the RAMP scale, so that the rounding of the upstream picture to integer
 # levels averages out over an image instead of adding a constant bias (seen: 0.25 px with res == s exactly)
-S0_FACTOR = 1.0373
+S0_FACTOR = 1.0373 / 4.0    # ~3.86 levels per pixel at the nominal resolution of the octave (log2 stays centred)
 RLOCK = threading.Lock()
 DEBUG = bool(__import__('os').environ.get('C01_DEBUG'))
 
@@ -350,10 +350,7 @@ class Ramp(object):
                 nums = parts[-3:]
                 nums[2] = nums[2].rsplit('.', 1)[0]
                 z, x, y = [int(v) for v in nums]
-                if parts[0] == 'tms':
-                    # TMS addressing: rows count from the BOTTOM of the tile pyramid (lower-left origin)
-                    if g['origin'] in ('ul', 'nw'):
-                        y = grid_size(g, z)[1] - 1 - y
+                # %(tms_path)s is only a path format (z/x/y); the row counts in the direction of the source grid's origin
                 bbox = tile_rect(g, x, y, z)
             arr, k, res = self.render(bbox, tuple(g['tile_size']), g['srs'])
             rec = {'k': k, 'res': res, 'srs': g['srs'], 'bbox': bbox, 'size': tuple(g['tile_size']), 'version': 'tile',
@@ -549,6 +546,16 @@ def mid_res_bound(spec, geom):
     return max(1.2 * max(geom.px_i, geom.px_j), g2['res'][-1] * f)
 
 
+def stages(spec):
+    """number of resampling stages between the upstream picture and the response"""
+    n = 1
+    if 'g2' in spec['grids']:
+        n += 1
+    if spec['supported_srs'] and not any(geo.same_crs(s, spec['grids']['g']['srs']) for s in spec['supported_srs']):
+        n += 1
+    return n
+
+
 def analyse(arr, geom, spec, req, k, src_res, stride=1, full=False):
     """judge the RGBA response `arr` under the hypothesis that its content was rendered with octave k"""
     sl = (slice(None, None, stride), slice(None, None, stride))
@@ -566,14 +573,16 @@ def analyse(arr, geom, spec, req, k, src_res, stride=1, full=False):
     alpha = arr[sl][..., 3]
     # phases and their derivatives per output pixel
     us = geo.ramp_u(X, Y, s)
-    dui = (Xi / s, Yi / s, (Xi + geo.B_SKEW * Yi) / (geo.B_SLOW * s))
-    duj = (Xj / s, Yj / s, (Xj + geo.B_SKEW * Yj) / (geo.B_SLOW * s))
+    co = geo.ramp_coeffs(s)
+    dui = [a * Xi + b * Yi for a, b in co]
+    duj = [a * Xj + b * Yj for a, b in co]
+    slack = SLACK + (0.0 if spec['resampling'] == 'nearest' else 1.0 * stages(spec))
     match = np.ones(X.shape, dtype=bool)
     grads = []
     for c in range(3):
         ext = tol * (np.abs(dui[c]) + np.abs(duj[c]))
         lo, hi = geo.tri_range(us[c] - ext, us[c] + ext)
-        match &= (obs[..., c] >= lo - SLACK) & (obs[..., c] <= hi + SLACK)
+        match &= (obs[..., c] >= lo - slack) & (obs[..., c] <= hi + slack)
         grads.append(np.hypot(dui[c], duj[c]))
     if req.get('transparent'):
         is_bg = alpha == 0
@@ -592,7 +601,7 @@ def analyse(arr, geom, spec, req, k, src_res, stride=1, full=False):
     good_out = is_bg | (match & opaque)
     strong = (grads[0] >= 0.5) | (grads[1] >= 0.5)
     res = {
-        'k': k, 'scale': scale, 'tol': tol, 'band': band,
+        'k': k, 'scale': scale, 'tol': tol, 'band': band, 'slack': slack, 'grad': float(np.median(grads[0])),
         'n_in': int(in_mask.sum()), 'n_out': int(out_mask.sum()), 'n_band': int((fin & ~in_mask & ~out_mask).sum()),
         'bad_in': int((in_mask & ~good_in).sum()), 'bad_out': int((out_mask & ~good_out).sum()),
         'n_strong': int((in_mask & strong).sum()), 'n_weak': int((in_mask & ~strong).sum()),
@@ -704,7 +713,7 @@ def judge_map(run, spec, req, resp, ramp, case, n_up_before):
         return r
     elif nbad:
         run.dc('outlier_pixels_below_0.5_percent', nbad)
-    lim = TOL_PX * r['scale'] + MEAN_SLACK
+    lim = TOL_PX * r['scale'] + MEAN_SLACK + (r['slack'] - SLACK + 0.5) / max(0.5, r['grad'])
     for ax in ('x', 'y'):
         st = r['pos'][ax]
         if st is None:
